@@ -96,7 +96,7 @@ macro_rules! lengthen_d {
 // ---------------------------------------------------------------------------------------------------------------
 // split at K / concat
 // ---------------------------------------------------------------------------------------------------------------
-// @gen macro=split_v name=c09_split props=C09 quick=u8,U0,0,U0,0,U0,0;u8,U1,1,U0,0,U1,1;u8,U1,1,U1,1,U0,0;u32,U4,4,U2,2,U2,2;u32,U4,4,U4,4,U0,0;u8,U5,5,U1,1,U4,4;(),U3,3,U1,1,U2,2 thorough=u8,U8,8,U3,3,U5,5;u8,U8,8,U0,0,U8,8;W24,U3,3,U2,2,U1,1;Pad,U4,4,U3,3,U1,1;u8,U7,7,U6,6,U1,1;u8,U6,6,U3,3,U3,3
+// @gen macro=split_v name=c09_split props=C09 quick=u8,U0,0,U0,0,U0,0;u8,U1,1,U0,0,U1,1;u8,U1,1,U1,1,U0,0;u32,U4,4,U2,2,U2,2;u32,U4,4,U4,4,U0,0;u8,U5,5,U1,1,U4,4;(),U3,3,U1,1,U2,2;W24,U3,3,U2,2,U1,1;Pad,U4,4,U3,3,U1,1 thorough=u8,U8,8,U3,3,U5,5;u8,U8,8,U0,0,U8,8;W24,U4,4,U1,1,U3,3;u8,U7,7,U6,6,U1,1;u8,U6,6,U3,3,U3,3
 macro_rules! split_v {
     ($name:ident, $T:ty, $N:ty, $n:expr, $K:ty, $k:expr, $R:ty, $r:expr) => {
         #[kani::proof]
@@ -432,6 +432,28 @@ macro_rules! flat_n0 {
             kani::assert(r.len() == 0, "C11.flatten(&, N=0): empty view");
             let r: &mut GenericArray<u8, U0> = (&mut a).flatten();
             kani::assert(r.len() == 0, "C11.flatten(&mut, N=0): empty view");
+            kani::cover!(true, "end reachable");
+        }
+    };
+}
+
+// zero-sized elements WITH drop glue: sizes are all 0, so nothing but the ledger can tell a duplicate or a loss
+// @gen macro=seq_zst name=c09_seq_zst props=C03,C09 quick=U2,2,U3,3,U5,5;U0,0,U2,2,U2,2;U2,2,U0,0,U2,2 thorough=U1,1,U1,1,U2,2;U4,4,U4,4,U8,8
+macro_rules! seq_zst {
+    ($name:ident, $N:ty, $n:expr, $M:ty, $m:expr, $S:ty, $s:expr) => {
+        #[kani::proof]
+        #[kani::unwind(12)]
+        fn $name() {
+            let a: GenericArray<Dz, $N> = GenericArray::from_array(core::array::from_fn::<Dz, $n, _>(|_| mkz()));
+            let b: GenericArray<Dz, $M> = GenericArray::from_array(core::array::from_fn::<Dz, $m, _>(|_| mkz()));
+            let c: GenericArray<Dz, $S> = Concat::<Dz, $M>::concat(a, b);
+            kani::assert(unsafe { DROPS_Z } == 0 && unsafe { LIVE_Z } == $n + $m, "C03.concat(ZST with drop glue): moves every element of both operands, drops none");
+            let (f, s): (GenericArray<Dz, $N>, GenericArray<Dz, $M>) = Split::<Dz, $N>::split(c);
+            kani::assert(unsafe { DROPS_Z } == 0 && f.len() == $n && s.len() == $m, "C03.split(ZST with drop glue): moves every element, drops none");
+            drop(f);
+            kani::assert(unsafe { DROPS_Z } == $n, "C03.split(ZST): the first part owns exactly N elements");
+            drop(s);
+            kani::assert(unsafe { LIVE_Z } == 0 && unsafe { DROPS_Z } == $n + $m, "C03.concat/split(ZST): in the end every element dropped exactly once");
             kani::cover!(true, "end reachable");
         }
     };
